@@ -83,6 +83,16 @@ CLAIMED['C07'] = dict(
          'network), the S2/S3 codec contracts, NBT as opaque blobs (position only), one-byte signedness not distinguished.',
     design='§6 C07')
 
+CLAIMED['C17'] = dict(
+    text='generate_verification_hash / minecraft_sha1_hash_digest / _number_from_bytes are executed symbolically from their '
+         'real source: the SHA-1 update trace equals utf8(server_id) || secret || public_key structurally (any order or extra '
+         'update fails hash.order), and for EVERY 20-byte digest (20 symbolic bytes) the returned string is the hex of the '
+         'signed big-endian integer (signed=/byteorder=/format-spec glue). Must-fail twins: swapped order, unsigned value.',
+    note='Trusted (assumed contracts, sampled in the bounded part against spec/javahex.py and the three published '
+         'vectors): hashlib.sha1 as an uninterpreted function of the concatenated updates, int.from_bytes two\'s-complement '
+         'semantics, format(n, "x") = BigInteger.toString(16). The use of the hash in the login reaction is C10.',
+    design='§6 C17')
+
 PLANNED = {
     'C01': 'check not built yet (DESIGN §6 C01): frame contracts on Packet.write/_write_buffer/read_packet',
     'C02': 'check not built yet (DESIGN §6 C02)',
